@@ -6,6 +6,9 @@ package main
 // repetitions harmless. The model is compared on the accounting outcome of each run.
 
 import (
+	"path/filepath"
+	"crypto/x509"
+	"crypto/tls"
 	"encoding/binary"
 	"encoding/json"
 	"fmt"
@@ -265,6 +268,7 @@ func closeChecks(r *Result) {
 		r.violate(Violation{Class: "C17/close-leaves-state", What: fmt.Sprintf("right after Close: %d handles, %d cache entries", h0, a0)})
 	}
 	closeDuringRequest(r)
+	idleReapingAllListeners(r)
 	stopUnderConnectStorm(r, stormRounds)
 	if h1 != 0 || a1 != 0 {
 		r.violate(Violation{Class: "C17/close-with-inflight-handler", What: fmt.Sprintf("a LOOKUP still inside the backend when Close returned put %d handle(s) and %d attribute-cache entr(ies) back afterwards", h1, a1),
@@ -413,5 +417,65 @@ func stopUnderConnectStorm(r *Result, rounds int) {
 				Ops: []string{"stop-under-connect-storm"}})
 			return
 		}
+	}
+}
+
+// idleReapingAllListeners: the idle reaper must run whatever kind of listener the server opened — plain TCP with
+// record marking, plain TCP without, TLS. A client connects (TLS: completes the handshake), stays silent, and must
+// be closed and uncounted soon after IdleTimeout.
+func idleReapingAllListeners(r *Result) {
+	if thePKI == nil {
+		thePKI = newPKI()
+	}
+	p := thePKI
+	idle := 60 * time.Millisecond
+	for _, kind := range []string{"plain-rm", "plain-raw", "tls"} {
+		opts := absnfs.ExportOptions{IdleTimeout: idle, MaxWorkers: 2, MaxConnections: 4}
+		if kind == "tls" {
+			opts.TLS = &absnfs.TLSConfig{Enabled: true, CertFile: filepath.Join(p.dir, "srv.pem"), KeyFile: filepath.Join(p.dir, "srv.key"), MinVersion: tls.VersionTLS12, MaxVersion: tls.VersionTLS13}
+		}
+		n, err := absnfs.New(NewRefFS(), opts)
+		must(err)
+		s, err := absnfs.NewServer(absnfs.ServerOptions{Port: 0, Hostname: "127.0.0.1", UseRecordMarking: kind != "plain-raw"})
+		must(err)
+		s.SetHandler(n)
+		if err := s.Listen(); err != nil {
+			r.Notes = append(r.Notes, "idle reaping ("+kind+") skipped: "+err.Error())
+			n.Close()
+			continue
+		}
+		var conn net.Conn
+		addr := fmt.Sprintf("127.0.0.1:%d", s.GetPort())
+		if kind == "tls" {
+			pool := x509.NewCertPool()
+			pool.AppendCertsFromPEM(p.caPEM)
+			conn, err = tls.DialWithDialer(&net.Dialer{Timeout: 2 * time.Second}, "tcp", addr, &tls.Config{RootCAs: pool, ServerName: "localhost", MinVersion: tls.VersionTLS12})
+		} else {
+			conn, err = net.DialTimeout("tcp", addr, 2*time.Second)
+		}
+		r.noteCase("idle-reaping "+kind, true)
+		r.count("idle-reaping:" + kind)
+		if err != nil {
+			r.Notes = append(r.Notes, "idle reaping ("+kind+"): could not connect: "+err.Error())
+		} else {
+			// silent client; the server should hang up within IdleTimeout + one reaper interval (allow a wide margin)
+			closed := false
+			deadline := time.Now().Add(idle*3 + 1500*time.Millisecond)
+			conn.SetReadDeadline(deadline)
+			var b [1]byte
+			t0 := time.Now()
+			_, rerr := conn.Read(b[:])
+			if rerr != nil && !strings.Contains(rerr.Error(), "timeout") {
+				closed = true
+			}
+			c, m := absnfs.VerifConnCounts(s)
+			if !closed {
+				r.violate(Violation{Class: "C17/idle-connection-not-reaped", What: fmt.Sprintf("%s listener, IdleTimeout %v: a connection that stayed silent for %v was not closed (connCount=%d, activeConns=%d)", kind, idle, time.Since(t0).Round(time.Millisecond), c, m),
+					Ops: []string{"idle-reaping " + kind}})
+			}
+			conn.Close()
+		}
+		s.Stop()
+		n.Close()
 	}
 }
